@@ -12,7 +12,7 @@ CONSTANTS
   MaxInstr = 2
   MaxTx = 1
   SupplyCap = 8
-  DataVals = {1, 2}
+  DataVals = {7}
   InitLedgers <- InitCore
   FailOdds = 4
   EndOdds = 3
